@@ -2,8 +2,11 @@ LEVEL = "model_checking"
 HARNESSES = [
     # sequential half of C15: every single-threaded operation history, run to a fixpoint per ring size
     dict(name="ringseq", src=["ringseq.c"], variant="asan", deadline={"quick": 90, "thorough": 600}),
+    # concurrent half: acquirer thread x releaser thread, every interleaving of the atomic loads/stores of head and tail
+    dict(name="ringmt", src=["ringmt.c"], variant="sched", wrap=True, deadline={"quick": 150, "thorough": 1500}),
 ]
 ASSUMPTIONS = [
+    "concurrent half (ringmt): one acquirer and one releaser thread, programs of <=3 (quick: 18 chosen, thorough: all over a 6-symbol alphabet for ring sizes 4 and 6, plus double-wrap programs of length 4); preemption bound 2 (quick) / 3 (thorough); interleavings are sequentially consistent - acquire/release/relaxed orderings are not modelled",
     "sequential half only: all operations on one thread; ring sizes 1..8 (quick) / 1..12 (thorough), each run to a fixpoint (histories of every length)",
     "alphabet: acquire(n) and acquire_up_to(min,n) for all 1<=min<=n<=size+1, release of the oldest outstanding buffer only (FIFO order, as ring_buffer.h demands)",
     "a refused acquire while fragmented (or slack-byte) space would suffice is not a violation: the property does not promise best fit; it is only counted",
